@@ -106,7 +106,7 @@ def handleVol (cmd : String) (args : List String) : Option String :=
         let n ← hex? n; let s ← s.toNat?
         pure ({ path := asciiBytes "in/" ++ n, content := .zeros s } : InFile))
       pure (match plan (asciiBytes "out.vol") files with
-        | .ok p => s!"ok {planLength p}"
+        | .ok _ => "ok"
         | .error _ => if pre = "-" then "err dest=absent" else "err dest=same")
   | "vol.refenc", unused :: slack :: rest => do
       let unused ← unused.toNat?; let slack ← slack.toNat?
